@@ -71,6 +71,14 @@ def assigned_names(nodes):
     return names
 
 
+def callee_mutated(nodes):
+    """local names of by-value containers that a loop body changes IN PLACE: subscript stores, mutating methods, and
+    arguments bound to a parameter that a callee's contract lists under `mutates`.  They must be havocked when the loop is
+    cut, exactly like assigned names."""
+    from .driver import mutated_names
+    return {n for n in mutated_names(list(nodes)) if n != 'self'}
+
+
 def written_fields(nodes):
     """attribute names stored through obj.attr = / obj.attr[...] = / obj.attr.method() in statements.
     Returns a set of names; names written ONLY through the receiver `self` are also in .only_self"""
@@ -537,7 +545,7 @@ class Runner:
         invs = parse_exprs(spec.get('invariant', []))
         hints = parse_exprs(spec.get('hints', []))
         body_assigned = assigned_names(s.body) | assigned_names([ast.Assign(targets=[s.target], value=ast.Constant(value=None))]) \
-            | self.ghost_assigned(s.body)
+            | self.ghost_assigned(s.body) | callee_mutated(s.body)
         body_fields = written_fields(s.body)
         # a dict-loop value variable that is mutated in place writes through to the iterated container
         nd = it
@@ -885,7 +893,7 @@ class Runner:
         hints = parse_exprs(spec.get('hints', []))
         dec = spec.get('decreases')
         label = 'loop%d' % idx
-        names = assigned_names(s.body) | self.ghost_assigned(s.body)
+        names = assigned_names(s.body) | self.ghost_assigned(s.body) | callee_mutated(s.body)
         fields = written_fields(s.body)
         outer_ghost = {g: st.ghost.get(g) for g in ('_i', '_done', '_k', '_entry', '_pre')}
         pre_loop = st.copy()
